@@ -443,3 +443,150 @@ def rule_lazy_inside_scope(ctx, rid="R2.8"):
                 n_here += 1
                 r.ok(site(f, n), "yield from inside the entered scope")
     return r
+
+
+def rule_no_parked_iterators(ctx, rid="R2.10"):
+    """An error iterator (validator.descend / iter_errors) is a suspended computation: between two of its elements the scopes it
+    entered for `$id`s and `$ref`s stay on the resolver's stack.  That is harmless while it is consumed last-in-first-out (a
+    `for` over it whose body only yields).  It is not when the iterator is advanced a little (`next(it)`, a loop left by `break`)
+    and then *put aside* -- stored, or kept in a local -- while another sub-validation runs: that one resolves its references against
+    the scopes of the parked iterator.  Necessary condition, decided per function on the CFG."""
+    prog = ctx.prog
+    calls = calls_of(prog)
+    r = ctx.rule(rid, "no error iterator is left half-consumed while another sub-validation runs, nor put aside half-consumed "
+                      "(the scopes it entered would still be in force)", floor=20)
+    reach = set(calls.reachable(calls.validation_roots()))
+    GEN = ("descend", "iter_errors")
+    EAGER = ("is_valid", "validate")
+    WRAP = ("iter", "map", "filter", "enumerate", "zip", "reversed")
+    DRAIN = ("list", "tuple", "sorted", "set", "frozenset", "max", "min", "sum", "dict")
+
+    def is_err_iter(e, names):
+        if isinstance(e, ast.Name):
+            return e.id in names
+        if isinstance(e, ast.Call):
+            fn = e.func
+            if isinstance(fn, ast.Attribute) and fn.attr in GEN:
+                return True
+            last = norm(fn).split(".")[-1]
+            if last in WRAP or last in ("chain", "islice"):
+                return any(is_err_iter(a, names) for a in e.args)
+        if isinstance(e, ast.GeneratorExp):
+            return any(is_err_iter(g.iter, names) for g in e.generators)
+        return False
+
+    for f in sorted(reach, key=lambda x: x.qual):
+        if isinstance(f.node, ast.Lambda):
+            continue
+        names = set()
+        changed = True
+        while changed:
+            changed = False
+            for n in walk_body(f):
+                if isinstance(n, ast.Assign) and len(n.targets) == 1 and isinstance(n.targets[0], ast.Name) and n.targets[0].id not in names \
+                        and is_err_iter(n.value, names):
+                    names.add(n.targets[0].id)
+                    changed = True
+        cfg = cfg_of(f)
+        adv, drain, esc, other = {}, {}, {}, {}
+        for n in cfg.live:
+            a, d, s, o = set(), set(), set(), []
+            if n.kind == "for":
+                it = n.ast.iter
+                if isinstance(it, ast.Name) and it.id in names:
+                    a.add(it.id)
+                elif is_err_iter(it, names):
+                    o.append("a loop over `%s`" % norm(it)[:40])
+            for e in node_exprs(n):
+                if n.kind == "for" and e is n.ast.iter:
+                    continue
+                for c in walk_expr(e):
+                    if isinstance(c, ast.Call):
+                        last = norm(c.func).split(".")[-1]
+                        argn = [x.id for x in c.args if isinstance(x, ast.Name) and x.id in names]
+                        if last == "next" and c.args:
+                            if isinstance(c.args[0], ast.Name) and c.args[0].id in names:
+                                a.add(c.args[0].id)
+                            elif is_err_iter(c.args[0], names) and not isinstance(c.args[0], ast.Name):
+                                pass        # next(<temporary>): the temporary is dropped, hence closed, at once
+                        elif last == "islice" and argn:
+                            a.update(argn)
+                        elif last in DRAIN or (isinstance(c.func, ast.Attribute) and c.func.attr == "extend"):
+                            d.update(argn)
+                            if any(is_err_iter(x, names) and not isinstance(x, ast.Name) for x in c.args):
+                                o.append("`%s`" % norm(c)[:40])
+                        elif isinstance(c.func, ast.Attribute) and c.func.attr == "close" and isinstance(c.func.value, ast.Name) and c.func.value.id in names:
+                            d.add(c.func.value.id)
+                        elif isinstance(c.func, ast.Attribute) and c.func.attr in ("append", "add", "insert", "setdefault", "appendleft"):
+                            for x in c.args:
+                                s.update(y.id for y in ast.walk(x) if isinstance(y, ast.Name) and y.id in names)
+                        if isinstance(c.func, ast.Attribute) and c.func.attr in EAGER:
+                            o.append("`%s`" % norm(c)[:40])
+                    elif isinstance(c, ast.YieldFrom):
+                        if isinstance(c.value, ast.Name) and c.value.id in names:
+                            d.add(c.value.id)
+                    elif isinstance(c, (ast.List, ast.Tuple, ast.Set, ast.Dict)) and not (n.kind == "stmt" and isinstance(n.ast, ast.Assign) and c in n.ast.targets):
+                        s.update(y.id for y in ast.walk(c) if isinstance(y, ast.Name) and y.id in names and isinstance(y.ctx, ast.Load))
+            if n.kind == "stmt" and isinstance(n.ast, ast.Assign):
+                for t in n.ast.targets:
+                    if isinstance(t, ast.Name) and t.id in names:
+                        d.add(t.id)         # re-bound: the old iterator is dropped (closed) unless it was put aside before
+                    if isinstance(t, (ast.Attribute, ast.Subscript)) and isinstance(n.ast.value, ast.Name) and n.ast.value.id in names:
+                        s.add(n.ast.value.id)
+            if n.kind in ("return", "yield") and getattr(n.ast, "value", None) is not None:
+                v = n.ast.value.value if isinstance(n.ast.value, (ast.Yield,)) else n.ast.value
+                if v is not None and not isinstance(n.ast.value, ast.YieldFrom):
+                    s.update(y.id for y in ast.walk(v) if isinstance(y, ast.Name) and y.id in names)
+            adv[n.id], drain[n.id], esc[n.id], other[n.id] = a, d, s, o
+        found = False
+        for n in cfg.live:
+            for name in sorted(adv[n.id]):
+                start = [y for (l, y) in n.succ if l != "exc" and (n.kind != "for" or l == "iter")]
+                seen, todo = set(), list(start)
+                while todo and not found:
+                    m = todo.pop()
+                    if m.id in seen or m is n and n.kind == "for":
+                        continue
+                    seen.add(m.id)
+                    if name in esc[m.id]:
+                        r.fail("%s|parked-iterator|%s" % (f.qual, name), site(f, m.ast),
+                               "`%s` is an error iterator that has been advanced (%s) and is then put aside (`%s`) still suspended: the scopes it entered "
+                               "stay on the resolver's stack, and whatever is validated before it is resumed resolves its references against them" % (
+                                   name, norm(n.ast)[:40] if n.ast is not None else "next", norm(m.ast)[:50] if m.ast is not None else ""))
+                        found = True
+                        break
+                    if other[m.id] and not (name in drain[m.id]):
+                        r.fail("%s|interleaved-iterator|%s" % (f.qual, name), site(f, m.ast),
+                               "while the error iterator `%s` is half-consumed, %s starts another sub-validation: it runs with the scopes `%s` entered still in force" % (
+                                   name, other[m.id][0], name))
+                        found = True
+                        break
+                    if name in drain[m.id]:
+                        continue
+                    todo.extend(y for (l, y) in m.succ if l != "exc")
+                if found:
+                    break
+            if found:
+                break
+        if not found:
+            r.ok(site(f), "%s" % ("error iterators %s: consumed where they are advanced" % sorted(names) if names else "no error iterator is bound to a name"))
+    return r
+
+
+def rule_scope_entered(ctx, rid="R2.12"):
+    """The id of a schema object is the base of the references inside it: iter_errors enters it around that schema's keywords -- for
+    every schema that has one, the validator's own root schema included (the resolver it was handed may have any base) -- and leaves
+    it again, also when a keyword function raises.  Decided on the class create() builds inside sa/tokeval.py."""
+    from .c02 import _valsem, dispatcher
+    prog = ctx.prog
+    r = ctx.rule(rid, "iter_errors enters a schema's id around its keywords (the root schema's too) and nothing for a schema without id", floor=1)
+    disp = dispatcher(prog)
+    sem = _valsem(ctx, "dispatch_eval")
+    if sem is None:
+        r.ok(site(disp), "NOT DECIDED: the dispatcher is outside the evaluated fragment (pairing and sibling rules apply)")
+        r.note(site(disp), "%s not decided" % rid)
+    elif sem.get("scope", sem.get("raises")) is None:
+        r.ok(site(disp), "push(id), keywords, pop for a subschema and for the validator's own schema, on first and repeated calls; nothing without an id; popped when a keyword raises")
+    else:
+        r.fail("%s|scope-entered|semantic" % disp.qual, site(disp), sem.get("scope") or sem.get("raises"))
+    return r
